@@ -66,19 +66,10 @@ def run(repo: Repo, rep: Report, tier: str) -> None:
     rep.count("R1.1:handler_emit_sites", n5)
 
     # ---------------------------------------------------------------- R1.3
-    helpers = c06._helpers(repo)
-    consts = c06._consts(repo)
-    gen = repo.func("visit.endpoint.generators.response_handler_generator:EndpointResponseHandlerGenerator.generate_response_handling")
-    E = c06._dispatch_rules(gen, helpers, _Quiet(), consts)
-    for spec in ("visit.exception_visitor:ExceptionVisitor.visit", "emitters.exceptions_emitter:ExceptionsEmitter._generate_for_codes"):
-        fn = repo.func(spec)
-        D = c06._alias_generator_rules(fn, helpers, _Quiet())
-        sub = f"alias classes imported by endpoints ({c06.fmt(E)}) are defined by {fn.qualname} ({c06.fmt(D)})"
-        if E - D:
-            rep.violation("R1.3", sub, f"alias-undefined|{fn.fq}|{c06.fmt(E - D)}",
-                          f"endpoints modules import alias classes for statuses {c06.fmt(E - D)} that no emitter defines: ImportError on `import <pkg>.endpoints.<tag>`", gen.loc())
-        else:
-            rep.ok("R1.3", sub, "subset holds", gen.loc())
+    # every alias class an endpoints module imports is defined by the alias emitters (rule instances of C06/R6.4, with its fallbacks)
+    from rules._reuse import reuse as _reuse13
+
+    _reuse13(repo, rep, "c06", {"R6.4": "R1.3"})
 
     # ---------------------------------------------------------------- R1.4 / R1.5 constant templates
     _constant_templates(repo, rep)
